@@ -34,6 +34,13 @@ def _keep_escaped(error):
 codecs.register_error("ural_keep_escaped", _keep_escaped)
 
 
+C1_CONTROL_CHARS_RE = re.compile("[\x80-\x9f]")
+
+
+def quote_match(match):
+    return quote(match.group(0))
+
+
 def _unquote_impl(string, only_printable=False, unsafe=None):
     string = string.encode("utf-8")
     bits = string.split(b"%")
@@ -46,7 +53,7 @@ def _unquote_impl(string, only_printable=False, unsafe=None):
         b = HEX_TO_BYTE.get(item[:2])
 
         if b is not None:
-            if only_printable and b < b" ":
+            if only_printable and (b < b" " or b == b"\x7f"):
                 append(b"%")
                 append(item)
             elif unsafe is not None and b in unsafe:
@@ -80,6 +87,10 @@ def _generate_unquoted_parts(string, only_printable=False, unsafe=None):
         c = _unquote_impl(m, only_printable=only_printable, unsafe=unsafe).decode(
             "utf-8", "ural_keep_escaped"
         )
+
+        # NOTE: C1 control characters only appear once bytes are decoded
+        if only_printable:
+            c = C1_CONTROL_CHARS_RE.sub(quote_match, c)
 
         yield c
 
